@@ -1069,7 +1069,19 @@ def store_site_coverage(repo, tier):
                 fns.append(dict(m.fn_info(q), obligations=1))
         qn = fname or "<row builder>"
         oid = f"C05/{short}::{qn}/store-sites#{label}"
-        uses_norm = any(isinstance(n, ast.Call) and getattr(n.func, "id", None) in norm for q, _l, _s in found for n in ast.walk(m.functions[q]))
+        def mentions_norm(fn_, seen):
+            """The normaliser is named in the function or in a module-level helper it names (call, `map(norm, ..)`, transitively)."""
+            for n in ast.walk(fn_):
+                if isinstance(n, ast.Name) and isinstance(n.ctx, ast.Load):
+                    if n.id in norm:
+                        return True
+                    h = m.functions.get(n.id)
+                    if h is not None and n.id not in seen and len(seen) < 40:
+                        seen.add(n.id)
+                        if mentions_norm(h, seen):
+                            return True
+            return False
+        uses_norm = any(mentions_norm(m.functions[q], {q}) for q, _l, _s in found)
         ok = bool(found) and not why and uses_norm
         if found and not uses_norm and not why:
             why.append("the row builder never calls the cell normaliser")
@@ -1209,7 +1221,7 @@ def field_store_kinds(repo, tier):
                                 stores.append((n, t1, isinstance(t, (ast.Tuple, ast.List))))
                 if not stores:
                     continue
-                kk = K.Kinds(fn, anns, mk.call_kinds, call_parts=mk.call_parts)
+                kk = K.Kinds(fn, anns, mk.call_kinds, call_parts=mk.call_parts, owner=cname, method_call=mk.method_call)
                 why = []
                 for n, t1, unpacked in stores:
                     allowed = K.ann_kinds(anns[t1.attr])
